@@ -83,6 +83,7 @@ def _leave_kind(stmts):
 
 
 def _canon_guard(c, p):
+    c = T.as_cond(c)
     if c[0] == 'not' or c[0] == 'or' or (c[0] == 'cmp' and c[1] in ('!=', '<=', 'notin', 'isnot')):
         n = T.not_(c)
         if not (n[0] in ('not', 'or') or (n[0] == 'cmp' and n[1] in ('!=', '<=', 'notin', 'isnot'))):
@@ -569,7 +570,7 @@ class FuncAnalysis:
         return out
 
     def _s_If(self, s):
-        c = self.ev(s.test)
+        c = T.as_cond(self.ev(s.test))
         self._emit('branch', s, cond=c)
         pre = dict(self.env)
         # counters (mutation versions, evaluations of impure calls) count along a path: the two arms
